@@ -35,6 +35,9 @@ CHECKS = {
     "C10": dict(level="other", engine="pysym", technique="set iteration order made a solver-chosen permutation inside the real parser/emitter modules (instrumented set type + AST rewrite of set literals), all order choices explored by symbolic path enumeration; replay under PYTHONHASHSEED 0..63",
                 text="partial: output independence from set-iteration order decided over all order choices (reverse/rotate per iteration site) for the enumerated scripts; independence from earlier calls is a concrete cross-check only",
                 note="history/interleaving and cross-platform ordering are outside the solver claim (stated in evidence)"),
+    "C11": dict(level="other", engine="pysym", technique="inductive step over the real _eval_const evaluator on crafted trees with solver-chosen node class/operator/callee and symbolic leaf values (pysym); profiled call whitelist, outcome sort, power bound; audited hostile-corpus cross-check",
+                text="partial: one evaluator step for every expression node class with symbolic leaves - only whitelisted callables run, result stays in the value sort or fails with an ordinary exception, no unbounded integer power; side-effect freedom and whole-text robustness only cross-checked concretely under an audit hook",
+                note="tree depth 1 (induction hypothesis on children); the sites/* part is concrete and outside the solver claim"),
     "C09": dict(level=TV, engine="fwsym+pysym", technique="symbolic execution of the emitted C++ (IR) with memory/UB monitors under the CPython path condition; heap sampled per pass; ASan/UBSan replay",
                 text="bounded symbolic memory-safety and leak checking of list/str skeletons over N passes, indices constrained by the CPython run to be IndexError-free",
                 note="trusted: fwsym memory model (validated by ASan/UBSan replay), mock String keeps characters inline (core String heap traffic outside the claim)"),
